@@ -272,7 +272,7 @@ impl Property for C13 {
             }
         }
         // every single alias of every pool message, k = 1
-        for (gi, g) in pool.msgs.iter().enumerate() {
+        for (gi, _g) in pool.msgs.iter().enumerate() {
             for f in 0..5u8 {
                 for target in [Target::Verify, Target::VerifyRln, Target::VerifyRoots] {
                     let c = Case { golden: gi as u8, target, mutation: Mutation::Alias { mask: 1 << f, k: 0 } };
